@@ -306,6 +306,16 @@ class Fn:
         self.locals = set()
         self.extra = []      # (name, leantype, origin) implicit parameters: struct fields, array cells, external functions
         self.outs = []       # names of pointer params written through
+        self.walked = set()  # pointer params the function itself moves (p++, p = ...): memory pointers, not out-parameters
+        def find_walked(n):
+            k = n.get('kind')
+            if (k == 'UnaryOperator' and n.get('opcode') in ('++', '--')) or k == 'CompoundAssignOperator' or (k == 'BinaryOperator' and n.get('opcode') == '='):
+                t = strip(n['inner'][0])
+                if t.get('kind') == 'DeclRefExpr' and tu.clean(dq(t)).endswith('*'):
+                    self.walked.add(t['referencedDecl']['name'])
+            for c in n.get('inner', []):
+                find_walked(c)
+        find_walked(f)
         self.pre = []
         self.tmp = 0
         self.pre_eff = []
@@ -335,7 +345,7 @@ class Fn:
                 l = l['inner'][0]
             if l['kind'] == 'UnaryOperator' and l['opcode'] == '*':
                 b = strip(l['inner'][0])
-                if b['kind'] == 'DeclRefExpr' and b['referencedDecl']['name'] in self.pnames and b['referencedDecl']['name'] not in self.outs:
+                if b['kind'] == 'DeclRefExpr' and b['referencedDecl']['name'] in self.pnames and b['referencedDecl']['name'] not in self.outs and b['referencedDecl']['name'] not in self.walked:
                     self.outs.append(b['referencedDecl']['name'])
         if n.get('kind') == 'CallExpr':
             fn = strip(n['inner'][0]).get('referencedDecl', {}).get('name', '')
@@ -418,8 +428,10 @@ class Fn:
             b = strip(l['inner'][0])
             if b['kind'] == 'CallExpr':      # *f() = v  (errno)
                 return True
-            if b['kind'] == 'DeclRefExpr' and b['referencedDecl']['name'] not in self.pnames:
-                return True                  # *local = v
+            if b['kind'] == 'DeclRefExpr' and (b['referencedDecl']['name'] not in self.pnames or b['referencedDecl']['name'] in self.walked):
+                return True                  # *local = v, *walked_param = v
+            if b['kind'] == 'UnaryOperator' and b.get('opcode') == '++' and b.get('isPostfix') and strip(b['inner'][0]).get('kind') == 'DeclRefExpr':
+                return True                  # *p++ = v
         return False
 
     def find_eff(self, n):
@@ -946,6 +958,15 @@ class Fn:
                     pass
             if self.is_mem_store(n):
                 add('eff_out')
+                def incs(m):         # `*p++ = *q++`: the pointers that move
+                    if m.get('kind') == 'UnaryOperator' and m.get('opcode') in ('++', '--'):
+                        try:
+                            add(self.assign_target(m['inner'][0]))
+                        except TranslateError:
+                            pass
+                    for x in m.get('inner', []):
+                        incs(x)
+                incs(n)
                 return
             if self.mem and ((k in ('BinaryOperator', 'CompoundAssignOperator', 'UnaryOperator') and (n.get('opcode') in ('=', '++', '--') or k == 'CompoundAssignOperator') and self.lhs_member(n)) or (k == 'CallExpr' and self.callee_name(n) in tu.SIG)):
                 add('mem_out')
@@ -1061,6 +1082,14 @@ class Fn:
             self.locals = set(saved_locals)
             b = self.stmts([el] + rest) if el else self.stmts(rest)
             return pre + f'if {cc} then\n{ind(a)}\nelse\n{ind(b)}'
+        if kd == 'ForStmt':
+            # `for (init; c; inc) body` = `init; while (c) { body; inc; }` (a `continue` in the body is refused by the while rule)
+            init, _condvar, c, inc, body = (s['inner'] + [None] * 5)[:5]
+            if c is None or not c:
+                raise TranslateError('for loop without condition')
+            wbody = {'kind': 'CompoundStmt', 'inner': [x for x in (body, inc) if x]}
+            w = {'kind': 'WhileStmt', 'inner': [c, wbody]}
+            return self.stmts(([init] if init else []) + [w] + rest)
         if kd == 'WhileStmt':
             # `while (c) body` (no return / break / continue / goto inside; `c` without side effects): the variables the body assigns are
             # the loop state; the loop is `whileN fuel cond step state` (Gen/Prelude.lean) with fuel 2^64 - more iterations than any
@@ -1091,8 +1120,16 @@ class Fn:
             unpack = ''.join(f'let {v} := {proj(i)}\n' for i, v in enumerate(vs))
             b = self.stmts_join([body], tup)
             self.locals = saved_locals
-            return (f'let {tup} := whileN {2**64} (fun st_ =>\n{ind(unpack + "decide (" + cc + ")")}) (fun st_ =>\n{ind(unpack + b)}) {tup}\n'
-                    + self.stmts(rest))
+            loop = f'whileN {2**64} (fun st_ =>\n{ind(unpack + "decide (" + cc + ")")}) (fun st_ =>\n{ind(unpack + b)}) {tup}'
+            if len(vs) == 1:
+                return f'let {vs[0]} := {loop}\n' + self.stmts(rest)
+            # the result is taken apart with projections, not with a tuple pattern: a `match` on the loop makes the kernel unfold
+            # `whileN` on its literal fuel whenever it has to compare two forms of the term (2^64 levels deep)
+            self.tmp += 1
+            lp = f'lp{self.tmp}_'
+            def rproj(i):
+                return lp + '.2' * i + ('.1' if i < len(vs) - 1 else '')
+            return f'let {lp} := {loop}\n' + ''.join(f'let {v} := {rproj(i)}\n' for i, v in enumerate(vs)) + self.stmts(rest)
         if kd == 'UnaryOperator' and s['opcode'] in ('--', '++') and self.lhs_member(s):
             self.expr(s)
             return self.flush() + self.stmts(rest)
@@ -1114,6 +1151,26 @@ class Fn:
                 val = self.expr(s['inner'][1])
             return self.flush() + f'let mem_out := wrm mem_out "{fld}" {be} {val}\n' + self.stmts(rest)
         if kd == 'BinaryOperator' and s['opcode'] == '=' and self.is_mem_store(s):
+            l0 = s['inner'][0]
+            while l0['kind'] == 'ParenExpr':
+                l0 = l0['inner'][0]
+            d0 = strip(l0['inner'][0]) if l0['kind'] == 'UnaryOperator' and l0.get('opcode') == '*' else None
+            if d0 is not None and d0.get('kind') == 'UnaryOperator' and d0.get('opcode') == '++' and d0.get('isPostfix'):
+                # `*D++ = E;` with E free of side effects or of the form `*S++`: store at D, then advance D (and S)
+                dref = strip(d0['inner'][0]); dn = self.assign_target(dref)
+                dsz = tu.pointee_size(tu.clean(dq(dref)))
+                r0 = strip(s['inner'][1]); post = ''
+                if r0.get('kind') == 'UnaryOperator' and r0.get('opcode') == '*' and strip(r0['inner'][0]).get('kind') == 'UnaryOperator' and strip(r0['inner'][0]).get('opcode') == '++' and strip(r0['inner'][0]).get('isPostfix'):
+                    sref = strip(strip(r0['inner'][0])['inner'][0]); sn = self.assign_target(sref)
+                    ssz = tu.pointee_size(tu.clean(dq(sref)))
+                    fake = dict(r0); fake['inner'] = [sref]
+                    val = self.expr(fake)
+                    post = f'let {sn} := (({sn} + {ssz}) % {2**64})\n'
+                else:
+                    val = self.expr(s['inner'][1])
+                if tu.bits(dq(s))[0] == 's':
+                    val = f'(Int.toNat (({val}) % {2**(8*dsz)}))'
+                return (self.flush() + f'let eff_out := eff_out ++ [("store{dsz*8}", [{dn}, {val}])]\n' + f'let {dn} := (({dn} + {dsz}) % {2**64})\n' + post + self.stmts(rest))
             e = self.store_effect(s)
             return self.flush() + e + self.stmts(rest)
         if kd == 'BinaryOperator' and s['opcode'] == '=':
